@@ -50,6 +50,10 @@ def GraphIsomorphism(G1, G2, nontrivial=False, formula_class=CNF):
                 F.add_clause([-f(u1, v1), -f(u2,v2)])
                 F.add_clause([-f(u1, v2), -f(u2,v1)])
 
+    # Forbid the identical mapping
+    if nontrivial:
+        F.add_clause([-f(u, u) for u in f.domain() if u in f.range()])
+
     F._mapping = f
     return F
 
